@@ -172,7 +172,9 @@ class Sock:
         return ctx.fresh("int", "sockopt")
 
     def m_getpeername(self, ctx, r, args, kwargs):
-        if self.faulted and ctx.fork(2, "getpeername-outcome") == 1:
+        # a peer may have reset the connection at ANY time -- also right after bytes were received or accepted for sending, and
+        # before an accepted connection is first serviced: getpeername() then raises ENOTCONN
+        if (self.faulted or self.net.inject) and ctx.fork(2, "getpeername-outcome") == 1:
             raise PyExc(ExcVal(OSError, (errno.ENOTCONN, "Transport endpoint is not connected")))
         return getattr(self, "peer", ("10.0.0.9", 4000))
 
@@ -588,9 +590,11 @@ for _fn in ("serviceReceivesAllIx", "serviceSendsAllIx", "service"):
     _mk3()
 
 
-@contract(SERVER + ".serviceAxes", props=["C12", "C11"], name=SERVER + ".serviceAxes[bounded]")
+@contract(SERVER + ".serviceAxes", props=["C12", "C11", "C10"], name=SERVER + ".serviceAxes[bounded]")
 def server_service_axes(B):
-    """new connections become Remoters carrying the server's tymeout (C12); a replaced connection's socket is released (C11)"""
+    """new connections become Remoters carrying the server's tymeout (C12); a replaced connection's socket is released (C11);
+    an accepted connection that its peer reset BEFORE it is first serviced (getpeername() raises ENOTCONN) does not make the
+    server raise: it is dropped with its socket closed, and the other accepted connections are still indexed (C10)"""
     net = Net(B)
     net.inject = False
     tls = False
@@ -604,21 +608,27 @@ def server_service_axes(B):
         ca = rems[0][0] if (same and i == 0) else ("10.0.1.%d" % i, 6000 + i)
         s.peer = ca
         s.sockname = ("10.0.0.1", 5000)
+        s.faulted = B.choice(False, True, label="peer-reset-before-first-service-%d" % i)      # getpeername() may then raise ENOTCONN
         ss.pending.append((s, ca))
         new.append((s, ca))
     B.call(srv, qual=SERVER + ".serviceAxes")
+    B.prove("a-connection-reset-before-its-first-service-does-not-make-the-server-raise", bool(B.returned()), top=True, props=["C10"])
     ctx = B.ctx
     ix = ctx.st(ctx.st(srv)["ixes"])["v"]
     B.ensures("len(axes) == 0", axes=tuple(ctx.st(ctx.st(srv)["axes"])["v"]), label="axes-drained")
     if B.returned():
         for s, ca in new:
             rm = ix.get(BI.hashable(ca))
+            if s.faulted and not (rm is not None and ctx.st(rm[1])["cs"] == s.ref):
+                B.prove("a-dropped-reset-connection-has-its-socket-closed", s.open is False, top=True, props=["C10", "C11"])
+                continue
             B.prove("accepted-connection-is-indexed", rm is not None and ctx.st(rm[1])["cs"] == s.ref, top=True, props=["C11", "C12"])
             if rm is not None:
                 B.prove("remoter-gets-server-tymeout", E.values_equal(ctx, ctx.st(rm[1])["tymeout"], ctx.st(srv)["tymeout"]), top=True, props=["C12"])
                 tm = ctx.st(ctx.st(rm[1])["tymer"])
                 B.prove("remoter-tymer-duration-is-server-tymeout", z(tm["_stop"], "real") - z(tm["_start"], "real") == z(ctx.st(srv)["tymeout"], "real"), top=True, props=["C12"])
-        if same:
+        rm0 = ix.get(BI.hashable(new[0][1]))
+        if same and rm0 is not None and ctx.st(rm0[1])["cs"] == new[0][0].ref:      # (a dropped reset connection replaces nothing)
             B.prove("replaced-connection-socket-closed", rems[0][2].open is False, top=True, props=["C11"])
         # every socket the server owns and that is open is reachable from ixes
         reach = {ctx.st(v[1])["cs"].oid for v in ix.values() if ctx.st(v[1])["cs"] is not None}
